@@ -67,7 +67,7 @@ def tie_T():
         os.makedirs(d, exist_ok=True)
         try:
             gen = tr.translate(core)
-        except (tr.TranslationError, SyntaxError, KeyError, IndexError) as e:
+        except Exception as e:      # fail closed
             res["ok"] = False
             res["detail"] = "translator rejects auditok/core.py (construct outside the supported subset): %s" % e
             open(marker, "w").write("FAIL " + res["detail"])
@@ -109,7 +109,7 @@ def tie_T2():
         os.makedirs(d, exist_ok=True)
         try:
             gen = tok2.emit(core)
-        except (tok2.TranslationError, SyntaxError, KeyError, IndexError, AttributeError, RecursionError) as e:
+        except Exception as e:      # fail closed: any failure inside the translator is a rejection of the source
             res["ok"] = False
             res["detail"] = "the tolerant translator also rejects auditok/core.py: %s" % e
             open(marker, "w").write("FAIL " + res["detail"])
